@@ -148,6 +148,9 @@ func (x *Exec) invoke(s *State, f *Frame, cc *CallCtx, callee Value) (forks []*S
 	// models by canonical name
 	if m, ok := x.Models[cc.Name]; ok {
 		if v, handled := m(s, cc); handled {
+			if len(cc.Alts) > 0 {
+				return x.forkAlts(s, cc), false
+			}
 			setResult(v)
 			return nil, false
 		}
@@ -163,6 +166,9 @@ func (x *Exec) invoke(s *State, f *Frame, cc *CallCtx, callee Value) (forks []*S
 	if target != nil {
 		if m, ok := x.Models[target.String()]; ok {
 			if v, handled := m(s, cc); handled {
+				if len(cc.Alts) > 0 {
+					return x.forkAlts(s, cc), false
+				}
 				setResult(v)
 				return nil, false
 			}
@@ -632,6 +638,42 @@ func (x *Exec) selectOp(s *State, f *Frame, in *ssa.Select) []*State {
 		fi.Regs[in] = res
 		fi.Idx++
 		out = append(out, si)
+	}
+	if out == nil {
+		out = []*State{}
+	}
+	return out
+}
+
+// forkAlts continues a (non-deferred) call with one successor per alternative.
+func (x *Exec) forkAlts(s *State, cc *CallCtx) []*State {
+	if cc.Deferred {
+		unsupported("forking model in a deferred call")
+	}
+	var out []*State
+	for i, alt := range cc.Alts {
+		st := s
+		if i < len(cc.Alts)-1 {
+			st = s.Fork()
+		}
+		v := alt(st)
+		if st.Dead {
+			continue
+		}
+		fr := st.top()
+		var resv []Value
+		if v != nil {
+			if val, ok := cc.Instr.(ssa.Value); ok {
+				fr.Regs[val] = v
+			}
+			resv = []Value{v}
+		}
+		if r := x.afterCall(st, fr, cc.Instr, resv); r != nil {
+			out = append(out, r...)
+			continue
+		}
+		fr.Idx++
+		out = append(out, st)
 	}
 	if out == nil {
 		out = []*State{}
